@@ -41,7 +41,7 @@ func init() {
 		Technique: "typestate dataflow over *ipdict.IPItems (new/inserted/sorted/published) in every function on the producer chain of IPTable.Update, dominance rules inside IPItems.Sort, sibling agreement between ipPairs.Less, the sort.Search predicate and the end-of-range test (evaluated on the three outcomes of bytes.Compare), normaliser agreement (net.IP.To16) between insert and lookup, lock-set on IPTable.ipItems, who-may-write census of IPItems.items, operand provenance and guard/store agreement in the merge step (checkMerge/mergeItems and helpers), tombstone write/test agreement, natural-loop analysis of the merge step (single exit, induction variable, reviewed scan ranges, skip-edge classification)",
 		Meta: core.Meta{
 			Level:       "other",
-			Explanation: "Decides: (a) every *IPItems handed to IPTable.Update comes from a producer (ipItemsMake, GlobalIPTableLoad -> TxtFileLoader.CheckAndLoad) that returns it only in state sorted (no InsertPair/InsertSingle or other mutator after the last Sort() on any path), Update is reached only when the producer's error is nil, and nothing mutates the value after it was published; the errors of InsertPair/InsertSingle are looked at by the producers, and a loader uses InsertSingle only under start == end; (b) IPItems.Sort sorts before mergeItems, sorts again on every path after it, and truncates items to len-mergedNum after that second sort; (c) ipPairs.Less orders by startIP descending and the sort.Search predicate in IPTable.Search is `items[i].startIP <= probe` (non-strict, same field, same direction), a hit is reported only for a set hit (HashSet.Exist(probe)) or under index < len && items[index].endIP >= probe with index the result of that sort.Search, on the items snapshot read under the lock; (d) stored bounds, stored singles and the probe are all net.IP.To16 values, InsertPair appends only after checkIPPair succeeded and checkIPPair accepts exactly start <= end; (e) IPTable.ipItems is read and written under t.lock; IPItems.items is written only by NewIPItems/InsertPair/Sort and its elements only by checkMerge/Swap.; (f) in the merge step (every in-package function reachable from IPItems.Sort): every bytes.Compare / Equal compares stored bounds (ipPair.startIP/endIP, possibly passed through a helper parameter) or net.IPv6zero/IPv4zero, never a value computed from a bound (address arithmetic wraps at the ends of the address space); a bound of one element is overwritten with the same bound of another element only under a guard that compares the absorbed element's endIP with the overwritten bound and holds for '>' and not for '<'; a merged entry gets both bounds set to net.IPv6zero; every 'already merged' test reads endIP (a startIP test only in conjunction with an endIP test on the same pair), and the value written as tombstone is one the tests compare endIP with.; (g) the pair scan of the merge step is exhaustive: every loop of mergeItems/checkMerge (and helpers) is an index scan that is left only through its own condition `index < bound` (no break/return/panic inside), advances by exactly one, and covers one of the reviewed complete ranges ([0,len(items)), [0,len(items)-1) with a nested scan of the rest, [outer index+1,len(items)), or all indices strictly between two index parameters); the merge helper is called with (absorbing, absorbed) = (outer index, index of the scan that starts right after it), the roles being read off the helper's `items[a].startIP = items[b].startIP`; on the way from the loop head to that call a pair is skipped only by an 'already merged' test (Equal with net.IPv6zero/IPv4zero on a stored bound, also through a helper) or by `absorbed.endIP < absorbing.startIP` (provably disjoint). Not covered: that the list is really in descending start order when the scan runs beyond what (b) states, the degenerate range ::-:: (it equals a tombstone), the odd index in mergeItems' inner IPv4zero test (items[i] instead of items[j]; harmless: tombstones are written as IPv6zero), the non-strict ipPairs.Less, hash-set behaviour (C20), parsing of the dictionary files. A correct saturating 'merge adjacent ranges' extension would be reported by merge-operands as a form the rule cannot follow.",
+			Explanation: "Decides: (a) every *IPItems handed to IPTable.Update comes from a producer (ipItemsMake, GlobalIPTableLoad -> TxtFileLoader.CheckAndLoad) that returns it only in state sorted (no InsertPair/InsertSingle or other mutator after the last Sort() on any path), Update is reached only when the producer's error is nil, and nothing mutates the value after it was published; the errors of InsertPair/InsertSingle are looked at by the producers, and a loader uses InsertSingle only under start == end; (b) IPItems.Sort sorts before mergeItems, sorts again on every path after it, and truncates items to len-mergedNum after that second sort; (c) ipPairs.Less orders by startIP descending and the sort.Search predicate in IPTable.Search is `items[i].startIP <= probe` (non-strict, same field, same direction), a hit is reported only for a set hit (HashSet.Exist(probe)) or under index < len && items[index].endIP >= probe with index the result of that sort.Search, on the items snapshot read under the lock; (d) stored bounds, stored singles and the probe are all net.IP.To16 values, InsertPair appends only after checkIPPair succeeded and checkIPPair accepts exactly start <= end; (e) IPTable.ipItems is read and written under t.lock; IPItems.items is written only by NewIPItems/InsertPair/Sort and its elements only by checkMerge/Swap.; (f) in the merge step (every in-package function reachable from IPItems.Sort): every bytes.Compare / Equal compares stored bounds (ipPair.startIP/endIP, possibly passed through a helper parameter) or net.IPv6zero/IPv4zero, never a value computed from a bound (address arithmetic wraps at the ends of the address space); a bound of one element is overwritten with the same bound of another element only under a guard that compares the absorbed element's endIP with the overwritten bound and holds for '>' and not for '<'; a merged entry gets both bounds set to net.IPv6zero; every 'already merged' test reads endIP (a startIP test only in conjunction with an endIP test on the same pair), and the value written as tombstone is one the tests compare endIP with.; (g) the pair scan of the merge step is exhaustive: every loop of mergeItems/checkMerge (and helpers) is an index scan that is left only through its own condition `index < bound` (no break/return/panic inside), advances by exactly one, and covers one of the reviewed complete ranges ([0,len(items)), [0,len(items)-1) with a nested scan of the rest, [outer index+1,len(items)), or all indices strictly between two index parameters); the merge helper is called with (absorbing, absorbed) = (outer index, index of the scan that starts right after it), the roles being read off the helper's `items[a].startIP = items[b].startIP`; on the way from the loop head to that call a pair is skipped only by an 'already merged' test (Equal with net.IPv6zero/IPv4zero on a stored bound, also through a helper) or by `absorbed.endIP < absorbing.startIP` (provably disjoint). Refactoring-robust reading: a reviewed writer / the merge helper is taken together with its private helpers (unexported functions whose every call site lies inside it), index and pair arguments are followed through helper parameters to the call sites, a tombstone written by a private helper that receives the entry through its parameters is one instance per call site of that helper, conditions evaluated into named booleans (`merged := a || b; if merged`, early returns, inverted tests) are read through their phi with the branch polarity folded in, a helper that receives two indices but never joins two ranges (it only marks the entries between them) is not a pair call, and the truncation bound may be clamped at 0 under `bound < 0`. Not covered: that the list is really in descending start order when the scan runs beyond what (b) states, the degenerate range ::-:: (it equals a tombstone), the odd index in mergeItems' inner IPv4zero test (items[i] instead of items[j]; harmless: tombstones are written as IPv6zero), the non-strict ipPairs.Less, hash-set behaviour (C20), parsing of the dictionary files. A correct saturating 'merge adjacent ranges' extension would be reported by merge-operands as a form the rule cannot follow.",
 			RuleText:    "obligations = each return / Update / mutator event of the functions on the producer chain with the abstract state reaching it; the ordering facts of Sort; the comparison shapes of Less, the Search predicate, the range-end test and checkIPPair; each To16 normalisation site; each access of IPTable.ipItems; each writer of IPItems.items; each comparison, each bound-overwriting store, each tombstone write and each zero test of the merge step; each loop of the merge step (single exit, scan range), each call that receives a pair of indices (order, skip filters)",
 			Assumptions: []string{"sort.Sort leaves the slice ordered by Less; sort.Search returns the first index for which the predicate holds", "functions outside bfe_util/ipdict can reach IPItems.items only through the exported methods (the field is unexported)"},
 		},
@@ -80,6 +80,12 @@ func init() {
 			{Name: "silent-overlap-helper", File: "bfe_util/ipdict/ipdict.go", Old: "	if bytes.Compare(items[j].endIP, items[i].startIP) >= 0 {\n		items[i].startIP = items[j].startIP\n		if bytes.Compare(items[j].endIP, items[i].endIP) >= 0 {", New: "	lower, upper := items[j], items[i]\n	_ = upper\n	if bytes.Compare(items[j].endIP, items[i].startIP) >= 0 {\n		items[i].startIP = lower.startIP\n		if bytes.Compare(items[j].endIP, items[i].endIP) >= 0 {", Silent: true},
 			{Name: "silent-tombstone-helper", File: "bfe_util/ipdict/ipdict.go", Old: "		items[j].startIP = net.IPv6zero\n		items[j].endIP = net.IPv6zero\n\n		mergedNum++\n", New: "		func(p *ipPair) {\n			p.startIP = net.IPv6zero\n			p.endIP = net.IPv6zero\n		}(&items[j])\n\n		mergedNum++\n", Silent: true},
 			{Name: "silent-search-returns-comparison", File: "bfe_util/ipdict/iptable.go", Old: "	if i < itemsLen {\n		if bytes.Compare(items[i].endIP, ip16) >= 0 {\n			hit = true\n		}\n	}\n\n	return hit", New: "	if i >= itemsLen {\n		return hit\n	}\n	return bytes.Compare(items[i].endIP, ip16) >= 0", Silent: true},
+			{Name: "silent-shared-tombstone-helper", File: "bfe_util/ipdict/ipdict.go", Old: "		items[j].startIP = net.IPv6zero\n		items[j].endIP = net.IPv6zero\n\n		mergedNum++\n\n		// Merge items [i+1, j)\n		for k := i + 1; k < j; k++ {\n			if items[k].endIP.Equal(net.IPv6zero) || items[k].endIP.Equal(net.IPv4zero) {\n				continue\n			}\n\n			items[k].startIP = net.IPv6zero\n			items[k].endIP = net.IPv6zero\n			mergedNum++\n		}\n	}\n\n	return mergedNum\n}\n", New: "		markMerged(items, j)\n\n		mergedNum++\n\n		// Merge items [i+1, j)\n		mergedNum += markBetween(items, i, j)\n	}\n\n	return mergedNum\n}\n\nfunc markMerged(ps ipPairs, at int) {\n	ps[at].endIP = net.IPv6zero\n	ps[at].startIP = net.IPv6zero\n}\n\nfunc markBetween(ps ipPairs, lo, hi int) int {\n	n := 0\n	for at := lo + 1; at < hi; at++ {\n		if ps[at].endIP.Equal(net.IPv6zero) || ps[at].endIP.Equal(net.IPv4zero) {\n			continue\n		}\n		markMerged(ps, at)\n		n++\n	}\n	return n\n}\n", Silent: true},
+			{Name: "silent-sort-clamps-length", File: "bfe_util/ipdict/ipdict.go", Old: "	length := len(ipItems.items) - mergedNum\n", New: "	length := len(ipItems.items) - mergedNum\n	if length < 0 {\n		length = 0\n	}\n", Silent: true},
+			{Name: "silent-scan-named-merged-flag", File: "bfe_util/ipdict/ipdict.go", Old: "			if items[j].endIP.Equal(net.IPv6zero) || items[i].endIP.Equal(net.IPv4zero) {\n				continue\n			}\n", New: "			lowerGone := items[j].endIP.Equal(net.IPv6zero)\n			skip := lowerGone || items[i].endIP.Equal(net.IPv4zero)\n			if skip {\n				continue\n			}\n", Silent: true},
+			{Name: "silent-merge-early-return", File: "bfe_util/ipdict/ipdict.go", Old: "	if bytes.Compare(items[j].endIP, items[i].startIP) >= 0 {\n		items[i].startIP = items[j].startIP\n", New: "	disjoint := bytes.Compare(items[j].endIP, items[i].startIP) < 0\n	if !disjoint {\n		items[i].startIP = items[j].startIP\n", Silent: true},
+			{Name: "silent-sort-in-finishing-helper", File: "bfe_modules/mod_trust_clientip/mod_trust_clientip.go", Old: "	// Load succ, sort dict\n	ipItems.Sort()\n	ipItems.Version = conf.Version\n\n	return ipItems, nil", New: "	// Load succ, sort dict\n	finishDict(ipItems, conf.Version)\n\n	return ipItems, nil\n}\n\nfunc finishDict(d *ipdict.IPItems, version string) {\n	d.Sort()\n	d.Version = version", Silent: true},
+			{Name: "finishing-helper-inserts-after-sort", File: "bfe_modules/mod_trust_clientip/mod_trust_clientip.go", Old: "	// Load succ, sort dict\n	ipItems.Sort()\n	ipItems.Version = conf.Version\n\n	return ipItems, nil", New: "	// Load succ, sort dict\n	finishDict(ipItems, conf.Version)\n\n	return ipItems, nil\n}\n\nfunc finishDict(d *ipdict.IPItems, version string) {\n	d.Sort()\n	d.Version = version\n	if err := d.InsertSingle(nil); err != nil {\n		return\n	}", Expect: "sorted-at-sink|mod_trust_clientip.ipItemsMake"},
 			{Name: "silent-rename-and-log", File: "bfe_modules/mod_trust_clientip/mod_trust_clientip.go", Old: "	// Load succ, sort dict\n	ipItems.Sort()\n	ipItems.Version = conf.Version\n\n	return ipItems, nil", New: "	// Load succ, sort dict\n	ipItems.Version = conf.Version\n	result := ipItems\n	result.Sort()\n	_ = fmt.Sprintf(\"%d items\", result.Length())\n\n	return result, nil", Silent: true},
 		},
 	})
@@ -94,6 +100,7 @@ type c19ctx struct {
 	reach    map[*ssa.Function]bool // memo: may reach a mutator
 	verified map[*ssa.Function]int  // 0 unknown, 1 in progress, 2 ok, 3 bad
 	itemsT   types.Type             // *ipdict.IPItems
+	insSeen  map[ssa.Instruction]bool
 }
 
 const c19pkg = "bfe_util/ipdict"
@@ -153,8 +160,22 @@ func runC19(c *core.Ctx) {
 		}
 		return false
 	}
-	allowedItems := map[string]bool{c19pkg + ".NewIPItems": true, c19pkg + ".IPItems.InsertPair": true, c19pkg + ".IPItems.Sort": true}
-	allowedElems := map[string]bool{c19pkg + ".IPItems.checkMerge": true, c19pkg + ".ipPairs.Swap": true}
+	// reviewed writers, each with its private helpers (a helper extracted from a
+	// reviewed writer, called from nowhere else, is part of that writer)
+	writers := map[*ssa.Function]bool{}
+	allowedItems, allowedElems := map[string]bool{}, map[string]bool{}
+	for _, n := range []string{"NewIPItems", "IPItems.InsertPair", "IPItems.Sort"} {
+		allowedItems[c19pkg+"."+n] = true
+		for _, h := range p.Region(p.Func(c19pkg, n)) {
+			allowedItems[core.FuncKey(h)] = true
+		}
+	}
+	for _, n := range []string{"IPItems.checkMerge", "ipPairs.Swap"} {
+		allowedElems[c19pkg+"."+n] = true
+		for _, h := range p.Region(p.Func(c19pkg, n)) {
+			allowedElems[core.FuncKey(h)] = true
+		}
+	}
 	for _, fn := range p.SrcFuncs("") {
 		inPkg := core.FuncPkgRel(fn) == c19pkg
 		wItems, wElem, wSet := false, false, false
@@ -182,23 +203,30 @@ func runC19(c *core.Ctx) {
 		if wElem {
 			c.Check("items-writers", k+":elements", pos, allowedElems[k], "elements of an ipPairs slice are overwritten in "+k+"; reviewed writers are checkMerge (merge + tombstone) and ipPairs.Swap")
 		}
-		if inPkg && (wItems || wElem || wSet) && fn.Signature.Recv() != nil && fn != x.newFn {
-			x.mutators[fn] = true
+		if inPkg && (wItems || wElem || wSet) && fn != x.newFn {
+			writers[fn] = true
 		}
 	}
 	c.Min("items-writers", 5)
-	// methods calling a mutator are mutators (mergeItems -> checkMerge)
+	// functions calling a writer are writers (mergeItems -> checkMerge -> a
+	// receiver-less helper that does the stores); the mutators of an IPItems
+	// are the methods among them
 	for changed := true; changed; {
 		changed = false
 		for _, fn := range pkgFns {
-			if x.mutators[fn] || fn.Signature.Recv() == nil {
+			if writers[fn] || fn == x.newFn {
 				continue
 			}
 			for _, call := range core.AllCalls(fn) {
-				if sc := call.Common().StaticCallee(); sc != nil && x.mutators[sc] {
-					x.mutators[fn], changed = true, true
+				if sc := call.Common().StaticCallee(); sc != nil && writers[sc] {
+					writers[fn], changed = true, true
 				}
 			}
+		}
+	}
+	for fn := range writers {
+		if fn.Signature.Recv() != nil {
+			x.mutators[fn] = true
 		}
 	}
 	var mnames []string
@@ -432,31 +460,18 @@ func (x *c19ctx) flow(fn *ssa.Function, publisher bool) bool {
 						return s | c19Pub
 					case sc != nil && (x.mutators[sc] || x.mayMutate(sc)):
 						if report {
-							if x.mutators[sc] && (sc.Name() == "InsertPair" || sc.Name() == "InsertSingle") {
-								if val, isVal := in.(ssa.Value); isVal {
-									c.Check("insert-error", ord.key(tag, sc.Name()), in.Pos(), uuErrUsed(val), "the error returned by "+sc.Name()+" is dropped: a rejected pair/single would silently be missing from the dictionary")
-								}
-								if sc.Name() == "InsertSingle" && len(cc.Args) == 2 {
-									// a range may be stored as a single address only when start == end
-									same := func(a, b ssa.Value) bool {
-										return uuResolve(a) == uuResolve(b) || core.Render(uuResolve(a)) == core.Render(uuResolve(b))
-									}
-									okEq := false
-									for _, g := range core.GuardsAt(in.Block()) {
-										cmp, set, isCmp := uuCmpSet(g.Cond, g.Pol)
-										if !isCmp || set != [3]bool{false, true, false} {
-											continue
-										}
-										if same(cmp.Call.Args[0], cc.Args[1]) || same(cmp.Call.Args[1], cc.Args[1]) {
-											okEq = true
-										}
-									}
-									c.Check("single-dispatch", ord.key(tag, "single"), in.Pos(), okEq, "a loader stores an entry as a single address (InsertSingle) although start == end (bytes.Compare(start, end) == 0 on the inserted value) is not established: the rest of the range would be lost")
-								}
-							}
+							x.insertObligations(in, tag, ord)
 							if s&c19Pub != 0 {
 								allOK = false
 								c.Check("mutate-after-publish", ord.key(tag, sc.Name()), in.Pos(), false, uuShort(sc)+" may modify the dictionary after it was published with IPTable.Update (lookups run concurrently on it)")
+							}
+						}
+						// a helper of the module that receives the dictionary: what it
+						// leaves behind is computed from its own body (a helper that
+						// inserts and then sorts hands back a sorted dictionary)
+						if !x.mutators[sc] {
+							if s2, ok := x.effect(sc, i, s, 0, report); ok {
+								return s2 | s&c19Pub
 							}
 						}
 						return c19Dirty | s&c19Pub
@@ -483,6 +498,99 @@ func (x *c19ctx) flow(fn *ssa.Function, publisher bool) bool {
 		allOK = false
 	}
 	return allOK
+}
+
+// insertObligations records, for a call of InsertPair / InsertSingle, that its
+// error is looked at and that a single address is stored only under start ==
+// end (the guard may be established at the single call site of a private
+// helper the call sits in). Each call instruction is recorded once.
+func (x *c19ctx) insertObligations(in ssa.Instruction, tag string, ord uuOrd) {
+	c := x.c
+	ci, ok := in.(ssa.CallInstruction)
+	if !ok {
+		return
+	}
+	cc := ci.Common()
+	sc := cc.StaticCallee()
+	if sc == nil || !x.mutators[sc] || (sc.Name() != "InsertPair" && sc.Name() != "InsertSingle") {
+		return
+	}
+	if x.insSeen == nil {
+		x.insSeen = map[ssa.Instruction]bool{}
+	}
+	if x.insSeen[in] {
+		return
+	}
+	x.insSeen[in] = true
+	if val, isVal := in.(ssa.Value); isVal {
+		c.Check("insert-error", ord.key(tag, sc.Name()), in.Pos(), uuErrUsed(val), "the error returned by "+sc.Name()+" is dropped: a rejected pair/single would silently be missing from the dictionary")
+	}
+	if sc.Name() == "InsertSingle" && len(cc.Args) == 2 {
+		// a range may be stored as a single address only when start == end
+		same := func(a, b ssa.Value) bool {
+			return uuResolve(a) == uuResolve(b) || core.Render(uuResolve(a)) == core.Render(uuResolve(b))
+		}
+		okEq := false
+		for _, g := range uuGuardsAtCtx(c.P, in.Block()) {
+			cmp, set, isCmp := uuCmpSet(g.Cond, g.Pol)
+			if !isCmp || set != [3]bool{false, true, false} {
+				continue
+			}
+			if same(cmp.Call.Args[0], cc.Args[1]) || same(cmp.Call.Args[1], cc.Args[1]) {
+				okEq = true
+			}
+		}
+		c.Check("single-dispatch", ord.key(tag, "single"), in.Pos(), okEq, "a loader stores an entry as a single address (InsertSingle) although start == end (bytes.Compare(start, end) == 0 on the inserted value) is not established: the rest of the range would be lost")
+	}
+}
+
+// effect computes the states an *IPItems can be in when fn returns, given that
+// fn receives it as parameter #pi in state s (typestate of the helper's own
+// body: Sort sorts, Insert* and other mutators dirty, Update publishes, nested
+// helpers recursively). ok is false when fn cannot be followed.
+func (x *c19ctx) effect(fn *ssa.Function, pi int, s uint32, depth int, report bool) (uint32, bool) {
+	if fn == nil || fn.Blocks == nil || depth > 2 || pi >= len(fn.Params) || core.FuncPkgRel(fn) == "" {
+		return 0, false
+	}
+	prm := ssa.Value(fn.Params[pi])
+	isP := func(v ssa.Value) bool { return uuResolve(v) == prm }
+	out := uint32(0)
+	ord := uuOrd{}
+	step := func(in ssa.Instruction, st uint32, final bool) uint32 {
+		switch v := in.(type) {
+		case ssa.CallInstruction:
+			cc := v.Common()
+			sc := cc.StaticCallee()
+			for i, a := range cc.Args {
+				if !isP(a) {
+					continue
+				}
+				switch {
+				case sc == x.sortFn && i == 0:
+					return c19Sorted | st&c19Pub
+				case sc == x.updFn && i == 1:
+					return st | c19Pub
+				case sc != nil && x.mutators[sc]:
+					if final && report {
+						x.insertObligations(in, uuShort(fn), ord)
+					}
+					return c19Dirty | st&c19Pub
+				case sc != nil && x.mayMutate(sc):
+					if s2, ok := x.effect(sc, i, st, depth+1, final && report); ok {
+						return s2 | st&c19Pub
+					}
+					return c19Dirty | st&c19Pub
+				}
+			}
+		case *ssa.Return:
+			if final {
+				out |= st
+			}
+		}
+		return st
+	}
+	core.Typestate(fn, s, step, nil)
+	return out, out != 0
 }
 
 func (x *c19ctx) sortStructure(itemsFld *types.Var) {
@@ -521,19 +629,65 @@ func (x *c19ctx) sortStructure(itemsFld *types.Var) {
 			continue
 		}
 		found = true
-		sl, isSlice := st.Val.(*ssa.Slice)
+		sl, isSlice := uuResolve(st.Val).(*ssa.Slice)
 		okShape := false
-		if isSlice && (sl.Low == nil || func() bool { k, ok := uuConstInt(sl.Low); return ok && k == 0 }()) && sl.High != nil {
-			if f, _ := uuFieldLoad(sl.X); f == itemsFld {
-				if sub, ok := sl.High.(*ssa.BinOp); ok && sub.Op == token.SUB && uuResolve(sub.Y) == ssa.Value(merge.(*ssa.Call)) {
-					if lc, ok := sub.X.(*ssa.Call); ok {
-						if b, ok := lc.Call.Value.(*ssa.Builtin); ok && b.Name() == "len" {
-							if f, _ := uuFieldLoad(lc.Call.Args[0]); f == itemsFld {
-								okShape = true
-							}
+		// len(items) - mergedNum
+		isCut := func(v ssa.Value) bool {
+			sub, ok := uuResolve(v).(*ssa.BinOp)
+			if !ok || sub.Op != token.SUB || uuResolve(sub.Y) != ssa.Value(merge.(*ssa.Call)) {
+				return false
+			}
+			lc, ok := uuResolve(sub.X).(*ssa.Call)
+			if !ok {
+				return false
+			}
+			b, ok := lc.Call.Value.(*ssa.Builtin)
+			if !ok || b.Name() != "len" {
+				return false
+			}
+			f, _ := uuFieldLoad(lc.Call.Args[0])
+			return f == itemsFld
+		}
+		// … possibly clamped at 0 (`if length < 0 { length = 0 }`: the
+		// alternative is taken only where the plain cut would be negative,
+		// i.e. where slicing would panic)
+		isCutOrClamp := func(v ssa.Value) bool {
+			if isCut(v) {
+				return true
+			}
+			phi, ok := uuResolve(v).(*ssa.Phi)
+			if !ok {
+				return false
+			}
+			n := 0
+			for j, e := range phi.Edges {
+				if isCut(e) {
+					n++
+					continue
+				}
+				if !uuConstIs(e, 0) {
+					return false
+				}
+				guarded := false
+				for _, g := range uuGuardsOnEdge(phi.Block().Preds[j], phi.Block()) {
+					if r, isRel := uuRelOf(g.Cond, g.Pol); isRel {
+						if r.Op == token.GTR || r.Op == token.GEQ {
+							r = uuRel{uuFlip(r.Op), r.Y, r.X}
+						}
+						if isCut(r.X) && ((r.Op == token.LSS && uuConstIs(r.Y, 0)) || (r.Op == token.LEQ && uuConstIs(r.Y, -1))) {
+							guarded = true
 						}
 					}
 				}
+				if !guarded {
+					return false
+				}
+			}
+			return n > 0
+		}
+		if isSlice && (sl.Low == nil || func() bool { k, ok := uuConstInt(sl.Low); return ok && k == 0 }()) && sl.High != nil {
+			if f, _ := uuFieldLoad(sl.X); f == itemsFld {
+				okShape = isCutOrClamp(sl.High)
 			}
 		}
 		c.Check("sort-structure", "Sort:truncate-shape", st.Pos(), okShape, "Sort stores "+core.Render(st.Val)+" into items; expected items[0 : len(items)-mergedNum] with mergedNum the result of mergeItems, so that exactly the tombstones sorted to the end are cut")
@@ -728,7 +882,7 @@ func (x *c19ctx) searchRules(searchFn, lessFn *ssa.Function, itemsFld, setFld, t
 		// range hit
 		var endOK, idxOK bool
 		var why []string
-		guards := core.GuardsAt(s.b)
+		guards := uuGuardsAt(s.b)
 		if s.extra != nil {
 			guards = append(guards, core.Guard{Cond: s.extra, Pol: true, Str: core.Render(s.extra)})
 		}
@@ -860,7 +1014,7 @@ func (x *c19ctx) normRules(itemsFld, setFld, startFld, endFld *types.Var) {
 			}
 			n++
 			ok, detail := false, "no guard compares the To16 forms of startIP and endIP"
-			for _, g := range core.GuardsAt(r.Block()) {
+			for _, g := range uuGuardsAt(r.Block()) {
 				call, set, isCmp := uuCmpSet(g.Cond, g.Pol)
 				if !isCmp {
 					continue
